@@ -71,8 +71,8 @@ def make_world():
 		t = case['tag'][n - 1]
 		if t == '__empty__':
 			return None
-		if t == 'ta':
-			return lark.Token('ta', f'v{n}')
+		if t == 'tra':
+			return lark.Token('tra', f'v{n}')
 		return lark.Tree(t, [to_lark(case, k) for k in case['kids'][n - 1]])
 
 	def build(case: dict):
